@@ -112,6 +112,12 @@ func genC09(tier, out string, sum *Summary) {
 		check("pad_left(s, `"+w+"`)", docs[0])
 		check("pad_right(s, `"+w+"`, 'x')", docs[0])
 	}
+	// a pad that will be rejected must be rejected before the width is used for anything
+	for _, w := range magnitudes {
+		for _, f := range []string{"pad_left(s, `%s`, '')", "pad_right(s, `%s`, '')", "pad_left(s, `%s`, 'ab')", "pad_right(s, `%s`, '<>')", "pad_left(s, `%s`, a)", "pad_right(s, `%s`, `null`)", "pad_left(a, `%s`)", "pad_right(`1`, `%s`, 'x')", "pad_left(s, `%s`, 'é́')"} {
+			check(fmt.Sprintf(f, w), docs[0])
+		}
+	}
 	// numeric text over the whole decimal range
 	for _, t := range []string{"1e6111", "1e-6176", "9e6144", "1e99999", "1e-99999", "123456789012345678901234567890123456789012345678901234567890", "0." + strings.Repeat("0", 300) + "1", "1" + strings.Repeat("0", 300), "1e400", "-1e400"} {
 		d := map[string]any{"n": json.Number(t), "m": json.Number("3")}
